@@ -67,8 +67,27 @@ static NS void check_a(int u, unsigned long a)
 	if (a < t->maxb[u])
 		ds_fail("litmus: reader E%d saw post-grace-period store B[%d]=%lu but pre-grace-period store A[%d]=%lu inside one read-side critical section", ds_self(), u, t->maxb[u], u, a);
 }
-static NS void lib_enter(void) { me_ts()->in_lib++; }
-static NS void lib_exit(void) { me_ts()->in_lib--; }
+#include <signal.h>
+static sigset_t mask_before[64][4];
+/* every library call must leave the caller's signal mask as it found it (bp blocks signals around registration and grace periods and restores them) */
+static NS void lib_enter(void)
+{
+	struct tstate *t = me_ts();
+	if (t->in_lib < 4) pthread_sigmask(SIG_SETMASK, NULL, &mask_before[ds_self()][t->in_lib]);
+	t->in_lib++;
+}
+static NS void lib_exit(void)
+{
+	struct tstate *t = me_ts();
+	t->in_lib--;
+	if (t->in_lib < 4) {
+		sigset_t now; pthread_sigmask(SIG_SETMASK, NULL, &now);
+		for (int s = 1; s < 32; s++)
+			if (sigismember(&now, s) != sigismember(&mask_before[ds_self()][t->in_lib], s))
+				ds_fail("a library call changed the calling thread's signal mask: signal %d was %s before the call and is %s after it", s,
+					sigismember(&mask_before[ds_self()][t->in_lib], s) ? "blocked" : "unblocked", sigismember(&now, s) ? "blocked" : "unblocked");
+	}
+}
 
 #ifdef FL_QSBR
 # define IN_SECTION(t) ((t)->online)
@@ -137,7 +156,7 @@ static NS void bp_slot_check(void)
 		t->bp_slot = s;
 		int k; for (k = 0; k < nslots_seen; k++) if (slots_seen[k] == s) break;
 		if (k == nslots_seen && nslots_seen < 64) slots_seen[nslots_seen++] = s;
-		if (nslots_seen > 2) ds_flag(CF_BP_GROW);	/* INIT_READER_COUNT=2 (hook): a third distinct slot means the arena grew */
+		if (nslots_seen > 1) ds_flag(CF_BP_GROW);	/* INIT_READER_COUNT=1 (hook): a second distinct slot means the arena grew */
 	}
 	else if (t->bp_slot != s) ds_fail("bp: reader slot of E%d moved from %p to %p", ds_self(), t->bp_slot, s);
 }
